@@ -585,3 +585,29 @@ def _oer_group_flat(env, mod, t, v, codec):
             return False
         return any(c.name in nv for c in flat_additions(r.base))
     return any_node(env, mod, t, v, pred)
+
+
+@carve('der-sequence-second-root-list-before-additions', ['C03'])
+def _der_root2(env, mod, t, v, codec):
+    """BER/DER SEQUENCE with a second root list: root2 components are encoded before the additions."""
+    if codec not in ('der', 'ber'):
+        return False
+
+    def pred(r, nv):
+        b = r.base
+        if b.kind != 'SEQUENCE' or not b.comps2 or not isinstance(nv, dict):
+            return False
+        return any(c.name in nv for c in flat_additions(b)) and any(c.name in nv for c in b.comps2)
+    return any_node(env, mod, t, v, pred)
+
+
+@carve('automatic-tags-second-root-list-numbered-after-additions', ['C03'])
+def _auto_root2(env, mod, t, v, codec):
+    """AUTOMATIC TAGS: a constructed type with a second root list and additions is tagged in textual order."""
+    if codec not in ('der', 'ber'):
+        return False
+    for r in _constructed_nodes(env, mod, t):
+        b = r.base
+        if b.comps2 and flat_additions(b) and tagging.component_autotags(env, r.mod, b):
+            return True
+    return False
